@@ -209,7 +209,7 @@ fn c07_real() -> impl Strategy<Value = Case> {
             o0.bind_buf = 4;
             o1.bind_buf = 4;
             let binds: Vec<BindSpec> = binds.into_iter().map(|(side, dgram, delay)| BindSpec { side, dgram, host: b"h".to_vec(), port: 7, delay }).collect();
-            let bp = BindPolicy { answers, batch: 1, order: vec![], enabled: true };
+            let bp = BindPolicy { answers, batch: 1, order: vec![], enabled: true, ping_first: false };
             let streams = streams
                 .into_iter()
                 .map(|(mut s, pad)| {
@@ -1074,7 +1074,7 @@ pub fn c06(ctx: &Ctx, rep: &mut Report) {
 fn c15_case() -> impl Strategy<Value = Case> {
     let bind = (0usize..2, any::<bool>(), prop::collection::vec(any::<u8>(), 0..300), any::<u16>(), 0u8..3);
     let answer = prop_oneof![3 => Just(BindAnswer::Accept), 2 => Just(BindAnswer::Reject), 2 => Just(BindAnswer::DropIt), 1 => Just(BindAnswer::Hold)];
-    let policy = (prop::collection::vec(answer, 0..7), 1u8..=4, prop::collection::vec(any::<u8>(), 0..4), prop::bool::weighted(0.8)).prop_map(|(answers, batch, order, enabled)| BindPolicy { answers, batch, order, enabled });
+    let policy = (prop::collection::vec(answer, 0..7), 1u8..=4, prop::collection::vec(any::<u8>(), 0..4), prop::bool::weighted(0.8), prop::bool::weighted(0.3)).prop_map(|(answers, batch, order, enabled, ping_first)| BindPolicy { answers, batch, order, enabled, ping_first });
     let sh = Shape { max_streams: 2, max_wops: 3, allow_empty: false, allow_drop: false, complete: true, small_windows: true, max_sched: 200 };
     (
         opts(true),
@@ -1397,7 +1397,7 @@ pub fn c15(ctx: &Ctx, rep: &mut Report) {
                 opts: [OptsSpec::default(), o1],
                 rng: [vec![7, 7, 7, 7], vec![]],
                 binds: vec![BindSpec { side: 0, dgram: i >= 4, host: b"h".to_vec(), port: 1, delay: 0 }],
-                bind_policy: [BindPolicy::default(), BindPolicy { answers: vec![ans], batch: 1, order: vec![], enabled }],
+                bind_policy: [BindPolicy::default(), BindPolicy { answers: vec![ans], batch: 1, order: vec![], enabled, ping_first: false }],
                 streams: vec![StreamSpec { side: 0, port: 3, pad: vec![], delay: 0, park: Some(1), cancel: None, ends: [EndScript { w: vec![WOp::Write(2), WOp::Shutdown], r: vec![ROp::ToEof(8)] }, EndScript { w: vec![WOp::Shutdown], r: vec![ROp::ToEof(8)] }] }],
                 events: vec![RawEvent { when: Trigger::Quiescent, what: What::Wake(1) }],
                 ..Case::default()
